@@ -18,13 +18,15 @@ var errInjectedFS = errors.New("verif: injected FS fault")
 // helpers, logs it, and lets a fault plan fail one call. The generated capFS_* types decide which
 // optional interfaces are visible.
 type capCore struct {
-	t        *T
-	inner    hackpadfs.FS
-	calls    []string
-	faultAt  int // index of the primitive call that fails (-1: none)
-	fired    string
-	fileMode string // "all" | "base" | "only:<Iface>"
-	short    bool   // buggify: a failing Write accepts a prefix first
+	t         *T
+	inner     hackpadfs.FS
+	calls     []string
+	faultAt   int    // index of the primitive call that fails (-1: none)
+	faultKind string // if set, faultAt counts only calls of this kind
+	kindSeen  int
+	fired     string
+	fileMode  string // "all" | "base" | "only:<Iface>"
+	short     bool   // buggify: a failing Write accepts a prefix first
 	// readShape (buggify, legal io.Reader behaviour): 0 as the inner file, 1 at most half the buffer,
 	// 2 one byte at a time, 3 the last bytes come together with io.EOF
 	readShape  int
@@ -55,6 +57,14 @@ func (c *capCore) hit(kind, name string) error {
 	yield(c.label + "fs." + kind + " " + name)
 	i := len(c.calls)
 	c.calls = append(c.calls, kind+" "+name)
+	if c.faultKind != "" {
+		// the faultAt-th call of that kind fails
+		if kind != c.faultKind {
+			return nil
+		}
+		i = c.kindSeen
+		c.kindSeen++
+	}
 	if i == c.faultAt && c.fired == "" {
 		c.fired = kind
 		c.t.Stat("fault:fs." + kind)
